@@ -34,3 +34,10 @@ Print Assumptions C12_response_of_the_event.
 Example C12_timeout_event_no_duplicate :
   r_out (run rx rx_search 10 None [(PTimeout, RCall CbFalse)] [Data [65; 65]%N; Timeout; Data [66]%N; Eof]) = [65; 65; 66]%N.
 Proof. vm_compute. reflexivity. Qed.
+
+(** the timeout given to run(): a number is used as it is, None means never, and only "not given" / the marker -1 means the default
+    of spawn (job run-args compares this with the timeout the spawn object is really created with) *)
+Theorem C12_timeout_argument :
+  spawn_timeout None = Some 30%Z /\ spawn_timeout (Some None) = None /\ forall t, spawn_timeout (Some (Some t)) = Some t.
+Proof. exact spawn_timeout_spec. Qed.
+Print Assumptions C12_timeout_argument.
